@@ -20,5 +20,20 @@ CONSTANTS
   TopUps = {1, 3}
   Donations = {1}
   Creators = {"u1", "u2"}
+  Proposers = {}
+  GovOn = FALSE
+  InitCP = 0
+  MaxProps = 0
+  CPTotals = {}
+  Deposits = {}
+  GovMinDep = 0
+  GovThr = 0
+  GovDP = 0
+  GovVP = 0
+  CancelNum = 0
+  CancelDen = 1
+  BurnPre = FALSE
+  BurnQ = FALSE
+  BurnV = FALSE
 CONSTRAINT GenConstraint
 CHECK_DEADLOCK FALSE
